@@ -8,7 +8,7 @@ from harness.core import rs
 def gen_mn_case(rng, nmin=2, nmax=5, connected=True, dup=None, label_kind=None, name_kind=None, maxcard=3, special=None):
     """special='one': one variable has a single state; special='ten': one variable has 10-12 states"""
     n = rng.randint(nmin, nmax)
-    names = gen.node_names(rng, n, name_kind or rng.choice(["str", "word", "int"]))
+    names = gen.node_names(rng, n, name_kind or rng.choice(["str", "word", "int", "int0"]))
     card = [rng.choice([2, 2, 3][:maxcard]) if maxcard >= 2 else 2 for _ in range(n)]
     card = [min(c, maxcard) for c in card]
     if special == "one":
@@ -54,7 +54,7 @@ def gen_cycle_case(rng, nmin=5, nmax=8, grid=False):
             ring.append((a, (a + rng.randint(2, n - 2)) % n))      # one chord
     perm = list(range(n))
     rng.shuffle(perm)
-    names = gen.node_names(rng, n, rng.choice(["str", "word", "int"]))
+    names = gen.node_names(rng, n, rng.choice(["str", "word", "int", "int0"]))
     big = rng.randrange(n)
     card = [3 if (i == big and not grid and rng.random() < .6) else 2 for i in range(n)]
     labels = [gen.state_labels(rng, c, rng.choice(["int", "str", "permint"])) for c in card]
